@@ -297,3 +297,81 @@ func typeIs(t types.Type, pkgpath, name string) bool {
 	n := namedOf(t)
 	return n != nil && n.Obj().Pkg() != nil && n.Obj().Pkg().Path() == pkgpath && n.Obj().Name() == name
 }
+
+// FieldRead is a read of one field of a struct value.
+type FieldRead struct {
+	Name string
+	Val  ssa.Value       // the value read (Field or the UnOp load)
+	At   ssa.Instruction // the reading instruction
+}
+
+// structFieldReads finds the reads of fields of struct value v, both direct (Field) and through the
+// spill pattern go/ssa uses for addressable locals (store v to an Alloc, FieldAddr, load). other = uses of v
+// that are neither (e.g. passing the whole struct on).
+func structFieldReads(v ssa.Value) (reads []FieldRead, other []ssa.Instruction) {
+	for _, u := range users(v) {
+		switch x := u.(type) {
+		case *ssa.DebugRef:
+		case *ssa.Field:
+			reads = append(reads, FieldRead{fieldOf(x).Name(), x, x})
+		case *ssa.Store:
+			al, ok := x.Addr.(*ssa.Alloc)
+			if !ok || x.Val != v {
+				other = append(other, u)
+				continue
+			}
+			// other stores to the same alloc
+			var stores []*ssa.Store
+			for _, au := range users(al) {
+				if s, ok := au.(*ssa.Store); ok && s.Addr == al {
+					stores = append(stores, s)
+				}
+			}
+			for _, au := range users(al) {
+				fa, ok := au.(*ssa.FieldAddr)
+				if !ok {
+					if _, isStore := au.(*ssa.Store); !isStore {
+						if _, isDbg := au.(*ssa.DebugRef); !isDbg {
+							// whole-struct load or address escape
+							if ld, ok := au.(*ssa.UnOp); ok && reachesFromStore(x, ld, stores) {
+								other = append(other, au)
+							} else if !ok {
+								other = append(other, au)
+							}
+						}
+					}
+					continue
+				}
+				for _, fu := range users(fa) {
+					ld, ok := fu.(*ssa.UnOp)
+					if !ok {
+						if _, isDbg := fu.(*ssa.DebugRef); !isDbg {
+							other = append(other, fu)
+						}
+						continue
+					}
+					if reachesFromStore(x, ld, stores) {
+						reads = append(reads, FieldRead{fieldOf(fa).Name(), ld, ld})
+					}
+				}
+			}
+		default:
+			other = append(other, u)
+		}
+	}
+	return
+}
+
+// reachesFromStore: store s is the store whose value load ld observes: s dominates ld and no other store to the
+// same alloc is dominated by s and dominates ld.
+func reachesFromStore(s *ssa.Store, ld ssa.Instruction, stores []*ssa.Store) bool {
+	if !dominatesInstr(s, ld) {
+		return false
+	}
+	for _, o := range stores {
+		if o != s && dominatesInstr(s, o) && dominatesInstr(o, ld) {
+			return false
+		}
+	}
+	return true
+}
